@@ -329,7 +329,9 @@ func parseCallgrind(out string) (*parsedReport, error) {
 	}
 	var cur *dispNode
 	var pendCallee string
-	suffixRE := regexp.MustCompile(` \[\d+/\d+\]$`)
+	// the disambiguation suffix " [i/n]" of an EMPTY name reaches the output as "[i/n]": callgrind names
+	// are written without leading blanks (commit 60810e9)
+	suffixRE := regexp.MustCompile(`(?:^| )\[\d+/\d+\]$`)
 	for _, l := range strings.Split(out, "\n") {
 		if l == "" || strings.HasPrefix(l, "positions:") || strings.HasPrefix(l, "events:") {
 			continue
